@@ -13,6 +13,13 @@ def gen_paths(ctx):
             paths.append(list(p))
     n_exh = len(paths)
     keys = ["a", "b", "toto", "tata", "x y", "0", "", "é", "k.k", "[1]", "lol"]
+    # every length from 7 to 260 once (buffers, chunking: multiples of 8 / 16 / 32 / 64 / 128 and their neighbours), and a few
+    # lengths around larger powers of two
+    for ln in list(range(7, 261)) + [511, 512, 513, 1023, 1024, 1025]:
+        p = []
+        for j in range(ln):
+            p.append(ctx.rng.choice(keys) if ctx.rng.random() < 0.5 else {"i": str(ctx.rng.choice([0, 1, 2, 42, 2**32, 2**64 - 1]))})
+        paths.append(p)
     n_rand = 300 if ctx.tier == "quick" else 5000
     for _ in range(n_rand):
         ln = ctx.rng.choice([7, 8, 10, 20, 50, 200])
@@ -67,7 +74,7 @@ def run(ctx, H):
     nontrivial = len({C.json.dumps(p) for p in paths if len(p) >= 1})
     ctx.coverage.update({
         "evaluations": len(paths), "distinct_nontrivial": nontrivial,
-        "rule": "all paths of <= 6 steps over {2 keys, 2 indices} (exhaustive: %d) plus %d random long paths; "
+        "rule": "all paths of <= 6 steps over {2 keys, 2 indices} (exhaustive: %d) plus %d longer paths (every length 7..260, 511..513, 1023..1025, and random ones); "
                 "non-trivial = distinct path with at least one step" % (n_exh, len(paths) - n_exh),
         "exhaustive_part": n_exh, "exhaustive": False,
         "samples": [paths[5], paths[n_exh - 1], paths[-1][:12]],
